@@ -1092,6 +1092,10 @@ func (d *Data) addSubvolumes(layer *layerT, subvolumes *subvolumesT, batchsize i
 // Partition returns JSON of differently sized subvolumes that attempt to distribute
 // the number of active blocks per subvolume.
 func (d *Data) Partition(ctx storage.Context, batchsize int32) ([]byte, error) {
+	if batchsize < 1 {
+		return nil, fmt.Errorf("batchsize must be at least 1, got %d", batchsize)
+	}
+
 	// Partition Z as perfectly as we can.
 	dz := d.MaxZ - d.MinZ + 1
 	zleft := dz % batchsize
@@ -1233,6 +1237,10 @@ func (d *Data) addSubvolumesGrid(layer *layerT, subvolumes *subvolumesT, batchsi
 
 // SimplePartition returns JSON of identically sized subvolumes arranged over ROI
 func (d *Data) SimplePartition(ctx storage.Context, batchsize int32) ([]byte, error) {
+	if batchsize < 1 {
+		return nil, fmt.Errorf("batchsize must be at least 1, got %d", batchsize)
+	}
+
 	// Partition Z as perfectly as we can.
 	dz := d.MaxZ - d.MinZ + 1
 	zleft := dz % batchsize
